@@ -206,6 +206,147 @@ def _needs_local(pname, arg, body_nodes):
     return uses != 1 or in_loop
 
 
+def _const_value(e):
+    """Python value of a literal expression (constants, tuples/lists of
+    constants); raises ValueError otherwise."""
+    if isinstance(e, ast.Constant):
+        return e.value
+    if isinstance(e, (ast.Tuple, ast.List)):
+        return tuple(_const_value(x) for x in e.elts)
+    raise ValueError
+
+
+class _FoldTests(ast.NodeTransformer):
+    """After a table-driven loop has been unrolled its tests compare
+    literals with literals: fold them and drop the dead branches."""
+
+    def visit_Compare(self, n):
+        n = self.generic_visit(n)
+        if len(n.ops) == 1:
+            try:
+                a, b = _const_value(n.left), _const_value(n.comparators[0])
+            except ValueError:
+                return n
+            op = n.ops[0]
+            try:
+                if isinstance(op, ast.Eq):
+                    v = a == b
+                elif isinstance(op, ast.NotEq):
+                    v = a != b
+                elif isinstance(op, ast.In):
+                    v = a in b
+                elif isinstance(op, ast.NotIn):
+                    v = a not in b
+                elif isinstance(op, ast.Is) and (a is None or b is None):
+                    v = a is b
+                elif isinstance(op, ast.IsNot) and (a is None or b is None):
+                    v = a is not b
+                else:
+                    return n
+            except TypeError:
+                return n
+            return ast.copy_location(ast.Constant(value=v), n)
+        return n
+
+    def visit_UnaryOp(self, n):
+        n = self.generic_visit(n)
+        if isinstance(n.op, ast.Not):
+            if isinstance(n.operand, ast.Constant) and isinstance(
+                    n.operand.value, bool):
+                return ast.copy_location(
+                    ast.Constant(value=not n.operand.value), n)
+            if isinstance(n.operand, ast.UnaryOp) and isinstance(
+                    n.operand.op, ast.Not) and isinstance(
+                        getattr(n, '_bool_ctx', None), bool):
+                return n.operand.operand
+        return n
+
+    def visit_BoolOp(self, n):
+        n = self.generic_visit(n)
+        vals = []
+        for v in n.values:
+            if isinstance(v, ast.Constant) and isinstance(v.value, bool):
+                if isinstance(n.op, ast.And):
+                    if not v.value:
+                        return ast.copy_location(ast.Constant(value=False),
+                                                 n)
+                    continue
+                if v.value:
+                    return ast.copy_location(ast.Constant(value=True), n)
+                continue
+            vals.append(v)
+        if not vals:
+            return ast.copy_location(ast.Constant(
+                value=isinstance(n.op, ast.And)), n)
+        if len(vals) == 1 and len(n.values) > 1:
+            # "True and x" is x only in a Boolean context; keep BoolOp
+            # semantics by leaving a single operand (same truth value and,
+            # for and/or with the dropped neutral element, same value)
+            return vals[0]
+        n.values = vals
+        return n
+
+    def visit_IfExp(self, n):
+        n = self.generic_visit(n)
+        if isinstance(n.test, ast.Constant) and isinstance(
+                n.test.value, bool):
+            return n.body if n.test.value else n.orelse
+        return n
+
+    def visit_If(self, n):
+        n = self.generic_visit(n)
+        t = n.test
+        if isinstance(t, ast.UnaryOp) and isinstance(
+                t.op, ast.Not) and isinstance(
+                    t.operand, ast.UnaryOp) and isinstance(
+                        t.operand.op, ast.Not):
+            n.test = t.operand.operand
+            t = n.test
+        if isinstance(t, ast.Constant) and isinstance(t.value, bool):
+            return (n.body if t.value else n.orelse) or None
+        return n
+
+    def visit_Assert(self, n):
+        n = self.generic_visit(n)
+        if isinstance(n.test, ast.Constant) and n.test.value is True:
+            return None
+        return n
+
+
+def _drop_dead(stmts):
+    """Remove statements that follow a return/raise/break/continue in the
+    same block (left over when a constant test was folded away)."""
+    out = []
+    for st in stmts:
+        for fld in ('body', 'orelse', 'finalbody'):
+            b = getattr(st, fld, None)
+            if isinstance(b, list) and b and isinstance(b[0], ast.stmt):
+                nb = _drop_dead(b)
+                setattr(st, fld, nb)
+        out.append(st)
+        if isinstance(st, (ast.Return, ast.Raise, ast.Break, ast.Continue)):
+            break
+    return out
+
+
+def _guards_to_nesting(body):
+    """``if c: continue`` as a top-level statement of a loop body becomes
+    ``if not c: <rest of the body>`` (same control flow, no jump)."""
+    body = list(body)
+    for i, st in enumerate(body):
+        if isinstance(st, ast.If) and not st.orelse and len(
+                st.body) == 1 and isinstance(st.body[0], ast.Continue):
+            rest = _guards_to_nesting(body[i + 1:])
+            if not rest:
+                return body[:i]
+            new = ast.If(test=ast.UnaryOp(op=ast.Not(), operand=st.test),
+                         body=rest, orelse=[])
+            ast.copy_location(new, st)
+            ast.copy_location(new.test, st)
+            return body[:i] + [new]
+    return body
+
+
 def _assigned_names(body):
     out = set()
     for st in body:
@@ -590,10 +731,69 @@ class Inliner:
         self.fold_getattr()
         self.unroll_literal_loops()
         self.scalarise_namedtuples()
-        if self.notes:
-            self.split_tuple_assigns()
+        self.desugar_globals_dict()
+        self.split_tuple_assigns()
         ast.fix_missing_locations(self.tree)
         return self.tree
+
+    def desugar_globals_dict(self):
+        """``globals()['NAME']`` (directly or through a local bound once to
+        ``globals()``) with a constant identifier is the module-level name
+        itself: a store becomes ``global NAME; NAME = v``, a load ``NAME``."""
+        for f in [x for x in ast.walk(self.tree)
+                  if isinstance(x, ast.FunctionDef)]:
+            aliases = set()
+            counts = {}
+            for st in ast.walk(f):
+                if isinstance(st, ast.Assign):
+                    for t in st.targets:
+                        if isinstance(t, ast.Name):
+                            counts[t.id] = counts.get(t.id, 0) + 1
+                            if isinstance(st.value, ast.Call) and isinstance(
+                                    st.value.func, ast.Name) and \
+                                    st.value.func.id == 'globals' and \
+                                    not st.value.args:
+                                aliases.add(t.id)
+            aliases = {a for a in aliases if counts.get(a) == 1}
+
+            def is_globals(e):
+                return (isinstance(e, ast.Call) and isinstance(
+                    e.func, ast.Name) and e.func.id == 'globals'
+                        and not e.args) or (isinstance(e, ast.Name)
+                                            and e.id in aliases)
+
+            names = []
+
+            class G(ast.NodeTransformer):
+
+                def visit_Subscript(self_, n):
+                    n = self_.generic_visit(n)
+                    if is_globals(n.value) and isinstance(
+                            n.slice, ast.Constant) and isinstance(
+                                n.slice.value, str) and \
+                            n.slice.value.isidentifier():
+                        if isinstance(n.ctx, ast.Store):
+                            names.append(n.slice.value)
+                        return ast.copy_location(
+                            ast.Name(id=n.slice.value, ctx=n.ctx), n)
+                    return n
+
+            params = {a.arg for a in f.args.args}
+            G().visit(f)
+            new = [n_ for n_ in dict.fromkeys(names) if n_ not in params]
+            if new:
+                declared = {n_ for x in ast.walk(f)
+                            if isinstance(x, ast.Global) for n_ in x.names}
+                add = [n_ for n_ in new if n_ not in declared]
+                if add:
+                    pos = 1 if (f.body and isinstance(f.body[0], ast.Expr)
+                                and isinstance(f.body[0].value,
+                                               ast.Constant)) else 0
+                    g = ast.Global(names=add)
+                    ast.copy_location(g, f.body[0] if f.body else f)
+                    f.body.insert(pos, g)
+                self.notes.append(f'{f.name}: globals()[...] stores written '
+                                  f'as global assignments ({len(new)})')
 
     def scalarise_namedtuples(self):
         """A local that is only ever bound to ``NT(...)`` of a module-level
@@ -726,10 +926,8 @@ class Inliner:
         """``a, b = X, Y`` -> ``a = X; b = Y`` in functions that received
         inlined code, when no right-hand side reads a target (the values are
         then the same in both orders of binding)."""
-        touched = {n.split(':')[0].split('.')[-1] for n in self.notes
-                   if ':' in n}
         for f in ast.walk(self.tree):
-            if not (isinstance(f, ast.FunctionDef) and f.name in touched):
+            if not isinstance(f, ast.FunctionDef):
                 continue
             for x in ast.walk(f):
                 for fld in ('body', 'orelse', 'finalbody'):
@@ -750,10 +948,19 @@ class Inliner:
                                                     for t in
                                                     st.targets[0].elts):
                             tn = {t.id for t in st.targets[0].elts}
-                            reads = {y.id for v in st.value.elts
-                                     for y in ast.walk(v)
-                                     if isinstance(y, ast.Name)}
-                            if not (tn & reads) and len(tn) == len(
+                            # sequential binding is the same as parallel
+                            # binding iff no value reads a target bound
+                            # before it
+                            safe = True
+                            seen_t = set()
+                            for t_, v_ in zip(st.targets[0].elts,
+                                              st.value.elts):
+                                rd = {y.id for y in ast.walk(v_)
+                                      if isinstance(y, ast.Name)}
+                                if rd & seen_t:
+                                    safe = False
+                                seen_t.add(t_.id)
+                            if safe and len(tn) == len(
                                     st.targets[0].elts):
                                 new = []
                                 for t, v in zip(st.targets[0].elts,
@@ -898,10 +1105,11 @@ class Inliner:
                                 it.id not in {a.arg for a in f.args.args}:
                             it = mod_consts[it.id]
                         if not isinstance(it, (ast.Tuple, ast.List)) or \
-                                not (0 < len(it.elts) <= 8) or \
+                                not (0 < len(it.elts) <= 12) or \
                                 not all(simple(x) for x in it.elts):
                             continue
-                        if own_jumps(st.body):
+                        lbody = _guards_to_nesting(st.body)
+                        if own_jumps(lbody):
                             continue
                         tg = st.target
                         if isinstance(tg, ast.Name):
@@ -923,9 +1131,18 @@ class Inliner:
                         for el in it.elts:
                             env = {tg.id: el} if names is None else dict(
                                 zip(names, el.elts))
-                            for b_ in st.body:
+                            for b_ in lbody:
                                 r = _Subst(env).visit(clone(b_))
-                                new.extend(r if isinstance(r, list) else [r])
+                                for r_ in (r if isinstance(r, list)
+                                           else [r]):
+                                    r_ = _FoldTests().visit(r_)
+                                    if r_ is None:
+                                        continue
+                                    new.extend(r_ if isinstance(r_, list)
+                                               else [r_])
+                        # flatten "if True:" bodies that were spliced in
+                        # and cut what follows a return inside them
+                        new = _drop_dead(new)
                         blk[i - 1:i] = new
                         i -= 1  # re-scan what was inserted (nested loops)
                         self.notes.append(f'{f.name}: unrolled loop over a '
